@@ -172,7 +172,7 @@ func (c *Ctx) runOneBatch(b TypeBatch, o eopts) []*Outcome {
 			hargs := []string{"-prop", c.Prop, "-seed", fmt.Sprint(c.Seed), "-pool", fmt.Sprint(o.PoolN), "-mut", fmt.Sprint(o.MaxMut),
 				"-progress", prog, "-tier", c.Tier, "-only", strings.Join(remaining, ",")}
 			env := c.Env.ScratchEnv("GORACE=halt_on_error=1 exitcode=66")
-			r := grun.Run(filepath.Join(dir, "h"), hargs, grun.Opts{Dir: dir, Env: env, Wall: 20 * time.Minute})
+			r := grun.Run(filepath.Join(dir, "h"), hargs, grun.Opts{Dir: dir, Env: env, Wall: 40 * time.Minute})
 			done := map[string]bool{}
 			sc := bufio.NewScanner(strings.NewReader(r.Stdout))
 			sc.Buffer(make([]byte, 1<<20), 64<<20)
